@@ -130,7 +130,10 @@ pub fn run(ctx: &Ctx) -> Report {
         if r.chance(1, 3) {
             o.cogen = Tri::Always;
         }
-        let case = gen_case(r, &o, 45);
+        let mut case = gen_case(r, &o, 45);
+        if r.chance(1, 40) {
+            crate::gen::without_epb_use(&mut case.spec, r);
+        }
         check_case(ctx, &case, t, idx < 200);
     });
     let quotas = vec![
